@@ -68,7 +68,8 @@ class _MetaHTMLParser(html.parser.HTMLParser):
 
     def handle_starttag(self, tag, attrs):
         if tag == 'meta' and not self.content_type:
-            atts = {a.lower(): v.lower() for a, v in attrs}
+            # an attribute without a value (<meta charset>) is reported as None
+            atts = {a.lower(): (v or '').lower() for a, v in attrs}
             if atts.get('http-equiv', '').strip() == 'content-type':
                 self.content_type = atts.get('content')
 
